@@ -441,6 +441,53 @@ fn run(prop: Prop, ctx: &Ctx, rep: &mut Report) {
             },
         );
     }
+    // ---------------- G4: sequences of option "atoms" (complete options, malformed fragments, the marker)
+    {
+        let mut atoms: Vec<Vec<u8>> = vec![
+            vec![0x00],
+            vec![0x10],
+            vec![0x11, 0xAA],
+            vec![0x01, 0xFF],
+            vec![0xC0],
+            vec![0xD0, 0x00],
+            vec![0xD0, 0xFF],
+            vec![0xE0, 0x00, 0x00],
+            vec![0xE0, 0xFE, 0xF2],
+            vec![0xFF],
+            vec![0xFF, 0x00],
+            vec![0xF0],
+            vec![0x0F],
+            vec![0xD1],
+            vec![0x1E, 0x00],
+        ];
+        let mut a13 = vec![0x0D, 0x00];
+        a13.extend(pattern(13, 3));
+        atoms.push(a13);
+        let mut a269 = vec![0x1E, 0x00, 0x00];
+        a269.extend(pattern(269, 4));
+        atoms.push(a269);
+        let k = atoms.len() as u64;
+        let maxlen = if ctx.thorough() { 6 } else { 5 };
+        let seqs = mccore::strings_upto_count(k, maxlen);
+        let heads: [&[u8]; 3] = [&[0x40, 0x01, 0x00, 0x0A], &[0x42, 0x45, 0x00, 0x0B, 0xFF, 0xFF], &[0x48, 0x02, 0x00, 0x0C, 1, 2, 3, 4, 5, 6, 7, 8]];
+        let radices = [seqs, 3];
+        let n = product(&radices);
+        ctx.family(
+            rep,
+            "G4-option-atom-sequences",
+            &format!("every sequence of 0..={} option atoms from {} atoms (complete options with literal / 8-bit / 16-bit extensions and values of 0, 1, 13, 269 bytes, option numbers up to 65535, truncated and reserved header bytes, the payload marker) after headers with token length 0, 2 and 8", maxlen, atoms.len()),
+            n,
+            true,
+            |i, rep| {
+                let d = decode(i, &radices);
+                let mut b: Vec<u8> = heads[d[1] as usize].to_vec();
+                for a in mccore::string_at(d[0], k, maxlen) {
+                    b.extend_from_slice(&atoms[a as usize]);
+                }
+                judge(prop, "G4-option-atom-sequences", i, n, &b, ctx, rep);
+            },
+        );
+    }
     // ---------------- G3: every prefix and every single-byte substitution of a corpus of well-formed messages
     {
         let corp = corpus();
